@@ -162,7 +162,7 @@ def mask_scripts(draws, tier, max_points=10, full_product_limit=0):
         for combo in itertools.product(*[range(draws[i][1]) for i in maskidx]):
             scripts.append(('seeded', dict(zip(maskidx, combo))))
         return scripts
-    for i, (kind, n, v) in enumerate(draws[:max_points]):
+    for i, (kind, n, v) in enumerate(draws[:max(0, max_points)]):
         for a in alphabet(kind, n):
             if a != v:
                 scripts.append(('seeded', {i: a}))
